@@ -642,7 +642,7 @@ class Inventory:
                 if d:
                     ctx.ok(rule, inst, "%s: %s" % d, s.loc)
                     continue
-                per_key.setdefault((_owner_name(f), s.cls), []).append(s)
+                per_key.setdefault((_owner_name(f), self._canon_cls(_owner_name(f), s.cls)), []).append(s)
         for (fname, cls), ss in sorted(per_key.items()):
             j = self._justification(fname, cls)
             allowed = j["max"] if j else 0
@@ -662,6 +662,13 @@ class Inventory:
                           ss[0].loc, fn=fname, path=path, key="%s|%s|%s" % (rule, fname, cls))
         ctx.extra.setdefault("panic_inventory", {})[rule] = dict(entries=len(entries), reachable_fns=len(reach), sites=n_sites)
         return n_sites
+
+    def _canon_cls(self, fname, cls):
+        """`v[i]` on a Vec is a call of Index::index, on a slice a BoundsCheck assertion: one class as far as a justification about the index is concerned"""
+        twin = {"call:index": "assert:BoundsCheck", "assert:BoundsCheck": "call:index"}.get(cls)
+        if twin and self._justification(fname, cls) is None and self._justification(fname, twin) is not None:
+            return twin
+        return cls
 
     def _justification(self, fname, cls):
         for j in self.just:
